@@ -16,6 +16,7 @@ def base_ops(shape):
         ops += [["batch", [["close", R, "a"], ["rebbase", R, "b", 0.5, 64.0]]]]
         ops += [["algos", R, {"weights": {}}, "Rebalance"]]  # an empty target list closes everything
         ops += [["algos", R, {}, "CapitalFlow", [16.0]]]  # capital paid in by the stock algo
+        ops += [["sectransact", ["a"], 3.0, None]]  # a fill booked on the security itself (the parent only hears of it through its cash)
     elif shape == "T2":
         ops += [["alloc", R, "s1", 32.0], ["alloc", R, "s2", 16.0], ["alloc", R, "s1", -8.0]]
         ops += [["alloc", ["s1"], "a", 8.0], ["alloc", ["s1"], "b", -4.0], ["alloc", ["s2"], "a", 8.0], ["alloc", R, "b", 8.0]]
@@ -126,7 +127,7 @@ def small_ops(shape):
             ["next"], ["update"], ["adjust", R, 16.0, True], ["adjust", R, -8.0, False],
             ["alloc", R, "a", 16.0], ["alloc", R, "b", -16.0], ["reb", R, "b", 0.5], ["close", R, "a"],
             ["transact", R, "b", 3.0], ["flatten", R], ["batch", [["alloc", R, "a", 16.0], ["alloc", R, "b", -8.0]]],
-            ["rebbase", R, "a", 0.5, 64.0], ["algos", R, {"weights": {}}, "Rebalance"], ["algos", R, {}, "CapitalFlow", [-8.0]],
+            ["rebbase", R, "a", 0.5, 64.0], ["algos", R, {"weights": {}}, "Rebalance"], ["algos", R, {}, "CapitalFlow", [-8.0]], ["sectransact", ["b"], -3.0, 0.0],
         ]
     if shape == "T2":
         return [
